@@ -5,6 +5,7 @@ from bibtexparser.library import Library
 from bibtexparser.middlewares import NormalizeFieldKeys, SortFieldsAlphabeticallyMiddleware, SortFieldsCustomMiddleware
 from bibtexparser.model import Entry, ExplicitComment, Field, ImplicitComment, ParsingFailedBlock, Preamble, String
 
+from .. import leak
 from ..canon import canon
 
 ID = "C17"
@@ -27,7 +28,7 @@ def bounds(tier):
 
 
 def shards(tier):
-    return [("pat", a, b) for a in range(len(KEYS)) for b in range(len(KEYS))] + [("short", 0), ("ctor", 0)]
+    return [("pat", a, b) for a in range(len(KEYS)) for b in range(len(KEYS))] + [("short", 0), ("ctor", 0), ("leak", 0)]
 
 
 def others():
@@ -161,6 +162,18 @@ def check_ctor(acc):
 def run_shard(shard, tier, acc):
     if shard[0] == "ctor":
         check_ctor(acc)
+        return
+    if shard[0] == "leak":
+        pats = [k for n in (1, 2, 3) for k in itertools.product(KEYS, repeat=n)]
+        inputs = [(lambda k=k: mk(k)) for k in pats]
+        for ip in (True, False):
+            leak.run(lambda: SortFieldsAlphabeticallyMiddleware(allow_inplace_modification=ip), inputs, acc, f"alphabetical({ip})", case_of=lambda i: list(pats[i]))
+            leak.run(lambda: NormalizeFieldKeys(allow_inplace_modification=ip), inputs, acc, f"normalize({ip})", case_of=lambda i: list(pats[i]))
+            for order, cs in CUSTOM[::9]:
+                folded = list(order) if cs else [k.lower() for k in order]
+                if len(set(folded)) != len(folded):
+                    continue
+                leak.run(lambda o=order, c=cs: SortFieldsCustomMiddleware(order=tuple(o), case_sensitive=c, allow_inplace_modification=ip), inputs, acc, f"custom({order},{cs},{ip})", case_of=lambda i: list(pats[i]))
         return
     maxn = 5 if tier == "quick" else 8
     if shard[0] == "short":
